@@ -10,6 +10,11 @@ RULE = ('seeded random small instances and option sets, real solver, short and l
 def cases(rng, tier):
     for _ in range(40 if tier == 'quick' else 2000):
         c = LP.rand_case(rng, ncrit=(0, 2)); c['getter'] = rng.choice(['get_results_short', 'get_results_long']); yield 'solver_run', c
+        if _ % 4 == 0:       # wide instances: project / student numbers with two digits (10, 11, 20 ...)
+            I = O.gen_instance(rng, rng.randint(2, 4), rng.randint(10, 12), rng.randint(1, 3), na=rng.choice([2, 3]), twopl=False, maxlen=4, maxq=2)
+            for row in I['rows']:
+                if row[0] and rng.random() < 0.7: row[0][0] = rng.choice([10, 11, 12][:max(1, I['nP'] - 9)]) if row[0][0] not in (10, 11, 12) and not any(x in (10, 11, 12) for x in row[0][1:]) else row[0][0]
+            yield 'solver_run', dict(instance=I, crits=[['maxsize', 1, []]], pc=False, stab=False, getter='get_results_short')
 
 
 def nontrivial(kind, inp): return True
